@@ -52,7 +52,7 @@ MkTarget(outer, els) ==
   THEN [h |-> Append(r.h, Cell("dict", [i \in 1..Len(els) |-> <<r.vs[i], VNone>>])), v |-> VRef(Len(r.h) + 1)]
   ELSE [h |-> Append(r.h, Cell(IF outer = "gen" THEN "list" ELSE outer, r.vs)), v |-> VRef(Len(r.h) + 1)]
 Wrapped(t, sub) ==
-  IF sub = "k" THEN [h |-> Append(t.h, Cell("dict", << <<VStr("k"), t.v>> >>)), v |-> VRef(Len(t.h) + 1)] ELSE t
+  IF sub # "T" THEN [h |-> Append(t.h, Cell("dict", << <<VStr("k"), t.v>> >>)), v |-> VRef(Len(t.h) + 1)] ELSE t
 
 \* ---- the reduction specs ----------------------------------------------------------------
 Sp(form, init, op, levels, lazy) == [form |-> form, sub |-> "T", init |-> init, op |-> op, levels |-> levels, lazy |-> lazy]
@@ -105,7 +105,7 @@ Evaluate ==
   /\ Len(outs) < 2
   /\ IF Len(outs) = 0
      THEN \E s \in AllSpecs : /\ sp' = [s EXCEPT !.sub = sp.sub]
-                              /\ ~(s.form = "flatten" /\ s.levels = 0 /\ sp.sub = "k")
+                              /\ ~(s.form = "flatten" /\ s.levels = 0 /\ sp.sub # "T")
      ELSE sp' = sp
   /\ LET m == MEval(heap, root, sp', acc)
          o == [ok |-> m.ok, v |-> m.v, exc |-> m.exc, inits |-> m.inits, acc |-> m.acc, muts |-> m.muts]
